@@ -9,7 +9,8 @@ from vlib.common import Outcome, Violation
 from vlib import renv
 
 PROPERTY = "C10"
-RULE = ("worker class {sync,gthread,gevent,eventlet} x bind {tcp,unix} x history of 1-3 HUPs (optionally preceded by TTIN/TTOU) at seeded "
+RULE = ("worker class {sync,gthread,gevent,eventlet} x bind spelling {numeric IPv4, unix path, host name, IPv6 literal} x history of 1-3 HUPs "
+        "(optionally preceded by TTIN/TTOU; two histories send the HUPs 0.05-0.3 s apart while workers boot slowly through a post_fork hook) at seeded "
         "times x config file rewritten before each HUP (workers changed, raw_env marker bumped) under a continuous stream of short "
         "requests on fresh connections plus one long gated request in flight across the first HUP, against a real master started from "
         "the working tree. Oracle: no connect is ever refused/reset; every response that began is complete; with sync workers every "
@@ -24,10 +25,12 @@ ASSUMPTIONS = [
 BUDGET = {"quick": (16, 0), "thorough": (16, 0)}
 G = 4
 KINDS = ["sync", "gthread", "gevent", "eventlet"]
+BINDS = ["tcp", "unix", "tcp-name", "tcp6"]        # numeric IPv4, unix path, host name, IPv6 literal
+NHIST = 12
 
 
 def cells():
-    for kind, bind, hist in itertools.product(KINDS, ["tcp", "unix"], range(10)):
+    for kind, bind, hist in itertools.product(KINDS, BINDS, range(NHIST)):
         h = [
             {"pre": [], "workers": [2]},
             {"pre": [], "workers": [3, 1]},
@@ -39,8 +42,15 @@ def cells():
             {"pre": [], "workers": [2, 3, 2]},
             {"pre": [], "workers": [3, None]},           # None: the settings are removed from the file -> built-in defaults again
             {"pre": ["TTIN"], "workers": [None]},
+            # HUPs in quick succession while the previous reload's workers are still booting (a legal post_fork hook that takes a
+            # moment widens the window between fork() and the worker installing its own signal handlers)
+            {"pre": [], "workers": [3, 2], "slow_boot": 0.4},
+            {"pre": ["TTIN"], "workers": [2, 2, 1], "slow_boot": 0.3},
         ][hist]
-        yield {"kind": kind, "bind": bind, "start_workers": 2, "pre": h["pre"], "workers": h["workers"], "hist": hist}
+        c = {"kind": kind, "bind": bind, "start_workers": 2, "pre": h["pre"], "workers": h["workers"], "hist": hist}
+        if h.get("slow_boot"):
+            c["slow_boot"] = h["slow_boot"]
+        yield c
 
 
 def extra_cases(tier, seed, shard, nshards):
@@ -57,10 +67,10 @@ def extra_cases(tier, seed, shard, nshards):
     for i, c in enumerate(cs):
         if i % nshards == shard:
             j = int(hashlib.sha1(("%d-%d" % (seed, i)).encode()).hexdigest()[:4], 16) / 65535.0
-            yield dict(c, gap=round(0.2 + 0.8 * j, 2))
+            yield dict(c, gap=round(0.05 + 0.25 * j, 2) if c.get("slow_boot") else round(0.2 + 0.8 * j, 2))
 
 
-EXHAUSTIVE_NOTE = "thorough: all 64 cells (4 classes x 2 binds x 10 histories); quick: a seeded slice of up to 32 covering every class x bind and every history"
+EXHAUSTIVE_NOTE = "thorough: all %d cells (4 classes x %d bind spellings x %d histories); quick: a seeded slice of up to 32 covering every class x bind and every history" % (4 * len(BINDS) * NHIST, len(BINDS), NHIST)
 
 
 class Load(threading.Thread):
@@ -101,9 +111,10 @@ def stable_workers(srv, limit):
 def run_case(case):
     kind, bind = case["kind"], case["bind"]
     classes = ["kind:" + kind, "bind:" + bind, "hist:%d" % case["hist"]]
+    slow = (["import time", "def post_fork(server, worker):", "    time.sleep(%s)" % case["slow_boot"]] if case.get("slow_boot") else [])
     srv = renv.Server(kind=kind, workers=None, bind=bind, graceful=G, timeout=30,
                       threads=2 if kind == "gthread" else None, keepalive=2,
-                      conf_lines=["workers = %d" % case["start_workers"], "raw_env = ['VERIF_MARKER=m0']"])
+                      conf_lines=["workers = %d" % case["start_workers"], "raw_env = ['VERIF_MARKER=m0']"] + slow)
     vio = []
 
     def V(clause, sig, observed=None, expected=None):
@@ -134,7 +145,7 @@ def run_case(case):
             if n is None:
                 srv.write_conf(["# nothing configured any more"])
             else:
-                srv.write_conf(["workers = %d" % n, "raw_env = ['VERIF_MARKER=m%d']" % (i + 1)])
+                srv.write_conf(["workers = %d" % n, "raw_env = ['VERIF_MARKER=m%d']" % (i + 1)] + slow)
             t_last_hup = time.time()
             srv.signal(signal.SIGHUP)
             time.sleep(case["gap"])
